@@ -242,6 +242,23 @@ impl Fs
         Some((cur, c[c.len() - 1].to_string()))
     }
 
+    /// some proper prefix of the path is a file (ENOTDIR on a real file system)
+    fn through_file(&self, path: &str) -> bool
+    {
+        let c = comps(path);
+        let mut cur = &self.root;
+        for name in c[..c.len().saturating_sub(1)].iter()
+        {
+            match cur.get(*name)
+            {
+                Some(Node::Dir(m)) => cur = m,
+                Some(Node::File(_)) => return true,
+                None => return false,
+            }
+        }
+        false
+    }
+
     fn is_root(path: &str) -> bool
     {
         comps(path).is_empty()
@@ -631,9 +648,10 @@ impl VerifSystem
             let parent = c[..c.len().saturating_sub(1)].join("/");
             if c.is_empty() || !(parent.is_empty() || g.is_dir(&parent))
             {
+                let weird = g.through_file(path);
                 let mut g = g;
                 g.log(op, false);
-                return Err(SystemError::NotFound);
+                return Err(if weird { SystemError::Weird } else { SystemError::NotFound });
             }
         }
         let (mut g, d) = self.mutation_point(g, &op);
@@ -795,9 +813,9 @@ impl System for VerifSystem
             }
             None =>
             {
-                let isdir = g.is_dir(path);
+                let weird = g.is_dir(path) || g.through_file(path);
                 g.log(Op::Open(path.to_string()), false);
-                Err(if isdir { SystemError::Weird } else { SystemError::NotFound })
+                Err(if weird { SystemError::Weird } else { SystemError::NotFound })
             }
         }
     }
@@ -823,9 +841,10 @@ impl System for VerifSystem
         }
         if !(parent.is_empty() || g.is_dir(&parent))
         {
+            let weird = g.through_file(path);
             let mut g = g;
             g.log(op, false);
-            return Err(SystemError::NotFound);
+            return Err(if weird { SystemError::Weird } else { SystemError::NotFound });
         }
         let (mut g, d) = self.mutation_point(g, &op);
         if let MutDecision::Crash = d
@@ -884,25 +903,46 @@ impl System for VerifSystem
         sched::yield_here();
         let g = self.lock();
         let op = Op::Rename(from.to_string(), to.to_string());
+        {
+            // path resolution order of rename(2): the source's parent, then the destination's parent, then the source itself
+            let parent_state = |p: &str| -> Option<SystemError>
+            {
+                if g.through_file(p) { return Some(SystemError::Weird); }
+                let c = comps(p);
+                let parent = c[..c.len().saturating_sub(1)].join("/");
+                if c.is_empty() || !(parent.is_empty() || g.is_dir(&parent)) { return Some(SystemError::NotFound); }
+                None
+            };
+            let early = parent_state(from).or_else(|| parent_state(to));
+            if let Some(e) = early
+            {
+                let mut g = g;
+                g.log(op, false);
+                return Err(e);
+            }
+        }
         let src_is_file = g.file_inode(from).is_some();
         let src_is_dir = !Fs::is_root(from) && g.is_dir(from);
         if !src_is_file && !src_is_dir
         {
+            let weird = g.through_file(from);
             let mut g = g;
             g.log(op, false);
-            return Err(SystemError::NotFound);
+            return Err(if weird { SystemError::Weird } else { SystemError::NotFound });
         }
         let tc = comps(to);
         let tparent = tc[..tc.len().saturating_sub(1)].join("/");
         if tc.is_empty() || !(tparent.is_empty() || g.is_dir(&tparent))
         {
+            let weird = g.through_file(to);
             let mut g = g;
             g.log(op, false);
-            return Err(SystemError::NotFound);
+            return Err(if weird { SystemError::Weird } else { SystemError::NotFound });
         }
         let dst_is_dir = g.is_dir(to);
         let dst_is_file = g.file_inode(to).is_some();
-        if (src_is_file && dst_is_dir) || (src_is_dir && (dst_is_file || dst_is_dir))
+        let into_itself = src_is_dir && { let (f, t) = (comps(from), comps(to)); t.len() > f.len() && t[..f.len()] == f[..] };
+        if into_itself || (src_is_file && dst_is_dir) || (src_is_dir && (dst_is_file || dst_is_dir))
         {
             let mut g = g;
             g.log(op, false);
